@@ -3,6 +3,7 @@ package main
 import (
 	"fmt"
 	"go/ast"
+	"go/token"
 	"go/types"
 	"strings"
 )
@@ -88,8 +89,35 @@ func runStaticBindGuard(c *Ctx) {
 			guarded := false
 			for i := clauseIdx + 1; i < len(stack)-1; i++ {
 				if ifs, ok := stack[i].(*ast.IfStmt); ok && i+1 < len(stack) && stack[i+1] == ast.Node(ifs.Body) {
-					txt := types.ExprString(ifs.Cond)
-					if strings.Contains(txt, "exact") && strings.Contains(txt, "Children.Len() == 0") && strings.Contains(txt, "||") {
+					// every disjunct has to be one of the two sound reasons: the static type is
+					// exact, or the class has no children at all. A further disjunct ("no child
+					// overrides the method") is a new reason that nothing here can vouch for -
+					// Children holds the direct subclasses only
+					var disjuncts []ast.Expr
+					var flat func(e ast.Expr)
+					flat = func(e ast.Expr) {
+						e = ast.Unparen(e)
+						if be, ok := e.(*ast.BinaryExpr); ok && be.Op == token.LOR {
+							flat(be.X)
+							flat(be.Y)
+							return
+						}
+						disjuncts = append(disjuncts, e)
+					}
+					flat(ifs.Cond)
+					hasExact, hasNoChildren, other := false, false, false
+					for _, d := range disjuncts {
+						txt := types.ExprString(d)
+						switch {
+						case txt == "exact":
+							hasExact = true
+						case strings.HasSuffix(txt, ".Children.Len() == 0"):
+							hasNoChildren = true
+						default:
+							other = true
+						}
+					}
+					if hasExact && hasNoChildren && !other {
 						guarded = true
 					}
 				}
